@@ -11,6 +11,13 @@ from . import _w
 PROP = "C16"
 
 
+def refresh_native_decimals(rw, rec):
+    """after a re-registration: native positions follow the registry; a cw20 side keeps what was recorded at creation"""
+    for i, a in enumerate(rec["assets"]):
+        if a[0] == "n":
+            rec["decimals"][i] = rw.reg[a[1]]
+
+
 def check_record(rw, acc, key, rec, ctx):
     """lookup in both orders must return exactly this pair, consistent with the pair's own description."""
     a0, a1 = rec["assets"]
@@ -102,13 +109,18 @@ def run_registry(acc, srv, key, n_ops):
                 probs = []
                 for k2 in rng.sample(rw.order, min(len(rw.order), 8)):
                     rec = rw.model[k2]
-                    rec["decimals"] = [rw.decimals_of(a) for a in rec["assets"]]
+                    refresh_native_decimals(rw, rec)
                     probs += check_record(rw, acc, k2, rec, {})
                 for rec in rw.model.values():
-                    rec["decimals"] = [rw.decimals_of(a) for a in rec["assets"]]
+                    refresh_native_decimals(rw, rec)
                 if probs:
                     acc.violation("after re-registering %s with %d decimals: %s" % (dn, newdec, "; ".join(probs[:3])),
                                   {"kind": "registry", "world_key": list(key), "step": step, "denom": dn})
+            continue
+        elif r < 0.735 and rw.model:
+            # a live token changes its reported decimals (migration to another cw20 implementation); later creations and
+            # re-registrations must not mix the old and the new value into records and pair reports
+            rw.remodel_token(rng, acc)
             continue
         elif r < 0.80:
             kind, rr, padded = rw.admin_noise(rng, acc)
@@ -222,7 +234,7 @@ def run_star(acc, srv, key):
         probs = []
         for k2 in rw.order:
             rec = rw.model[k2]
-            rec["decimals"] = [rw.decimals_of(a) for a in rec["assets"]]
+            refresh_native_decimals(rw, rec)
             probs += check_record(rw, acc, k2, rec, {})
         if probs:
             acc.violation("after re-registering %s (shared by %d pairs) with %d decimals: %s" % (hot[1], len(rw.model), newdec, "; ".join(probs[:3])),
